@@ -19,6 +19,7 @@ import binascii
 import itertools
 import lzma
 import os
+import re
 import shutil
 import struct
 import tempfile
@@ -47,6 +48,8 @@ COMPRESSOR_ATTR = {"zlib": "vtkZLibDataCompressor", "lz4": "vtkLZ4DataCompressor
 ATTR_COMPRESSOR = {v: k for k, v in COMPRESSOR_ATTR.items()}
 VTP_SECTIONS = [("Verts", "POLY_VERTEX", "NumberOfVerts"), ("Lines", "POLY_LINE", "NumberOfLines"),
                 ("Polys", "POLYGON", "NumberOfPolys"), ("Strips", "TRIANGLE_STRIP", "NumberOfStrips")]
+VTP_TYPE_ID = {"Verts": 2, "Lines": 4, "Polys": 7, "Strips": 6}      # VTK ids of the four poly cell types
+VTP_ID_NAME = {2: "POLY_VERTEX", 4: "POLY_LINE", 7: "POLYGON", 6: "TRIANGLE_STRIP"}
 CODECS = ["zlib", "lz4", "lzma"] if HAVE_LZ4 else ["zlib", "lzma"]
 
 
@@ -155,6 +158,32 @@ def gen_vtp(rng, n: int, sizes: dict, plan_p, plan_c, ptype="Float32", ctype="In
             "pf": gen_fields(rng, n, plan_p, "p"), "cf": gen_fields(rng, ncells, plan_c, "c")}
 
 
+STRUCTURED = {"vti": "ImageData", "vtr": "RectilinearGrid", "vts": "StructuredGrid"}
+
+
+def gen_structured(rng, kind: str, cells, plan_p, plan_c, ptype="Float64"):
+    """ds of a structured file: `cells` per direction (0 = flat), lower extent corner at small random indices.
+    vts: explicit point coordinates, vtr: three ordinate arrays, vti: origin/spacing attributes only."""
+    lo = [rng.choice([0, 0, 1, -2]) for _ in range(3)]
+    ext = [v for d in range(3) for v in (lo[d], lo[d] + cells[d])]
+    npts = (cells[0] + 1) * (cells[1] + 1) * (cells[2] + 1)
+    ncells = max(cells[0], 1) * max(cells[1], 1) * max(cells[2], 1)
+    ds = {"kind": kind, "ext": ext, "npts": npts, "ncells": ncells, "ptype": ptype,
+          "pf": gen_fields(rng, npts, plan_p, "p"), "cf": gen_fields(rng, ncells, plan_c, "c")}
+    if kind == "vts":
+        ds["points"] = hx(gen_points(rng, npts, ptype))
+    elif kind == "vtr":
+        ds["coords"] = []
+        for d in range(3):
+            x0 = float(rng.randint(-4, 4))
+            vals = [x0 + i * rng.choice([0.5, 1.0, 1.25]) + (0.125 if i % 2 else 0.0) for i in range(cells[d] + 1)]
+            ds["coords"].append(hx(np.array(vals, dtype=np_dtype(ptype)).tobytes()))
+    else:
+        ds["origin"] = [float(rng.randint(-3, 3)) for _ in range(3)]
+        ds["spacing"] = [rng.choice([0.5, 1.0, 2.0]) for _ in range(3)]
+    return ds
+
+
 def full_plan():
     return [(t, nc) for t in TYPE_NAMES for nc in (1, 3, 9)]
 
@@ -166,7 +195,17 @@ def cyclic_plan(shift: int):
 def ncells_of(ds) -> int:
     if ds["kind"] == "vtu":
         return len(ds["cells"])
+    if ds["kind"] in STRUCTURED:
+        return ds["ncells"]
     return sum(len(v) for v in ds["sections"].values())
+
+
+def n_arrays(ds) -> int:
+    """number of <DataArray> elements of the file"""
+    mesh = {"vtu": 4, "vti": 0, "vtr": 3, "vts": 1}.get(ds["kind"])
+    if mesh is None:
+        mesh = 1 + 2 * len(ds["sections"])
+    return len(ds["pf"]) + len(ds["cf"]) + mesh
 
 
 # ------------------------------------------------------------------ configurations
@@ -180,7 +219,8 @@ def cfg_tokens(cfg, b64: bool) -> str:
 
 def cfg_key(cfg) -> str:
     return (f"{cfg['fmt']}/{cfg['comp'] or 'none'}/B{cfg['B'] if cfg['comp'] else 0}/h{cfg['hs']}/{cfg['bo']}/"
-            f"{'joint' if cfg['joint'] else 'sep'}" + ("/mixed" if cfg.get("fmts") else ""))
+            f"{'joint' if cfg['joint'] else 'sep'}" + ("/mixed" if cfg.get("fmts") else "") +
+            (f"/hdr{HDR_STYLES.index(cfg['hdr'])}" if cfg.get("hdr") in HDR_STYLES[1:] else ""))
 
 
 def storage_of(cfg, i: int) -> str:
@@ -222,7 +262,11 @@ def base_arrays(ds):
         arrs.append({"sec": "PointData", "name": f["name"], "type": f["type"], "ncomp": f["ncomp"], "le": unhx(f["le"])})
     for f in ds["cf"]:
         arrs.append({"sec": "CellData", "name": f["name"], "type": f["type"], "ncomp": f["ncomp"], "le": unhx(f["le"])})
-    arrs.append({"sec": "Points", "name": "Coordinates", "type": ds["ptype"], "ncomp": 3, "le": unhx(ds["points"])})
+    if ds["kind"] == "vtr":
+        for nm, c in zip("xyz", ds["coords"]):
+            arrs.append({"sec": "Coordinates", "name": nm, "type": ds["ptype"], "ncomp": 1, "le": unhx(c)})
+    elif ds["kind"] != "vti":
+        arrs.append({"sec": "Points", "name": "Coordinates", "type": ds["ptype"], "ncomp": 3, "le": unhx(ds["points"])})
     return arrs
 
 
@@ -273,6 +317,34 @@ def vtuw_line(ds) -> str:
     return " ".join(toks)
 
 
+def vtpw_line(ds) -> str:
+    """all four sections in file order (empty ones with zero rows) + the cell-data rows"""
+    toks = ["c05vtpw", str(len(VTP_SECTIONS))]
+    for s, _, _ in VTP_SECTIONS:
+        rows = ds["sections"].get(s, [])
+        toks += [str(VTP_TYPE_ID[s]), str(len(rows))]
+        for r in rows:
+            toks += [str(len(r))] + [str(i) for i in r]
+    toks.append(str(len(ds["cf"])))
+    n = ncells_of(ds)
+    for f in ds["cf"]:
+        rows = rows_of(unhx(f["le"]), n)
+        toks += [str(len(rows))] + [hx(r) for r in rows]
+    return " ".join(toks)
+
+
+def parse_vtp_arrs(s: str):
+    """t:count:conn:offs|…  -> {section name: (count, conn, offs)}"""
+    out = {}
+    if s == "-":
+        return out
+    id_sec = {v: k for k, v in VTP_TYPE_ID.items()}
+    for part in s.split("|"):
+        t, n, conn, offs = part.split(":")
+        out[id_sec[int(t)]] = (int(n), parse_nats(conn), parse_nats(offs))
+    return out
+
+
 # ------------------------------------------------------------------ XML wrapping (the only thing the harness writes)
 
 def float_text(bits: int, size: int) -> str:
@@ -289,8 +361,9 @@ def data_array_xml(a, storage: str, text: str, offset) -> str:
     return f"<DataArray {attrs}>\n{text}\n</DataArray>"
 
 
-def wrap_file(ds, cfg, arrs, xmls) -> bytes:
-    """arrs in document order with their rendered <DataArray> elements"""
+def wrap_file(ds, cfg, arrs, xmls, counts=None) -> bytes:
+    """arrs in document order with their rendered <DataArray> elements; counts = the NumberOf… attributes of a
+    .vtp as produced by the spec writer"""
     def sec(name):
         return "\n".join(x for a, x in zip(arrs, xmls) if a["sec"] == name)
     comp = f' compressor="{COMPRESSOR_ATTR[cfg["comp"]]}"' if cfg["comp"] else ""
@@ -302,9 +375,22 @@ def wrap_file(ds, cfg, arrs, xmls) -> bytes:
                 f'<Points>\n{sec("Points")}\n</Points>\n<Cells>\n{sec("Cells")}\n</Cells>\n'
                 f'</Piece></UnstructuredGrid>')
         gtype = "UnstructuredGrid"
+    elif ds["kind"] in STRUCTURED:
+        gtype = STRUCTURED[ds["kind"]]
+        ext = " ".join(str(v) for v in ds["ext"])
+        extra = ""
+        if ds["kind"] == "vti":
+            extra = (f' Origin="{" ".join(repr(v) for v in ds["origin"])}"'
+                     f' Spacing="{" ".join(repr(v) for v in ds["spacing"])}"')
+        geo = {"vti": "", "vtr": f'<Coordinates>\n{sec("Coordinates")}\n</Coordinates>\n',
+               "vts": f'<Points>\n{sec("Points")}\n</Points>\n'}[ds["kind"]]
+        body = (f'<{gtype} WholeExtent="{ext}"{extra}><Piece Extent="{ext}">\n'
+                f'<PointData>\n{sec("PointData")}\n</PointData>\n<CellData>\n{sec("CellData")}\n</CellData>\n'
+                f'{geo}</Piece></{gtype}>')
     else:
-        counts = " ".join(f'{attr}="{len(ds["sections"].get(s, []))}"' for s, _, attr in VTP_SECTIONS)
-        secs = "".join(f"<{s}>\n{sec(s)}\n</{s}>\n" for s, _, _ in VTP_SECTIONS if ds["sections"].get(s))
+        counts = counts or {s: len(ds["sections"].get(s, [])) for s, _, _ in VTP_SECTIONS}
+        secs = "".join(f"<{s}>\n{sec(s)}\n</{s}>\n" for s, _, _ in VTP_SECTIONS if counts.get(s, 0))
+        counts = " ".join(f'{attr}="{counts.get(s, 0)}"' for s, _, attr in VTP_SECTIONS)
         body = (f'<PolyData><Piece NumberOfPoints="{ds["npts"]}" {counts}>\n'
                 f'<PointData>\n{sec("PointData")}\n</PointData>\n<CellData>\n{sec("CellData")}\n</CellData>\n'
                 f'<Points>\n{sec("Points")}\n</Points>\n{secs}</Piece></PolyData>')
@@ -312,11 +398,26 @@ def wrap_file(ds, cfg, arrs, xmls) -> bytes:
     return f'<?xml version="1.0"?>\n<VTKFile type="{gtype}" {root_attrs}>\n{body}\n'.encode("ascii")
 
 
+HDR_DEFAULT = [" ", "=", "", "\n"]           # a1, a2, a3, ws of Spec.RawFile
+HDR_STYLES = [HDR_DEFAULT, ["\n  ", " = ", " ", "\n   "], [" ", "=", " " * 40, "\n"], ["  ", "= ", " " * 60, "\n "],
+              [' info_1="x_y"  ', "=", ' more="y"', "\n  "], [" ", "=", "", "\n\t"]]
+# style 5 (a TAB between `>` and `_`) is legal for VTK but only generated for raw appendices: for XML-parsable
+# (base64) files `elem.text.strip("_ \n")` leaves the tab in front of the data and every offset > 0 is shifted
+# (observation C05-APPWS in NOTES_C05.md, not registered).  FCV_C05_APPWS=1 generates it for base64 too.
+APPWS_OPT_IN = os.environ.get("FCV_C05_APPWS") == "1"
+
+
+def hdr_styles_for(fmt: str):
+    return HDR_STYLES[1:] if (fmt == "appraw" or APPWS_OPT_IN) else HDR_STYLES[1:5]
+
+
 def finish_file(head: bytes, cfg, appendix: bytes | None) -> bytes:
     if appendix is None:
         return head + b"</VTKFile>\n"
     encn = "base64" if appended_is_b64(cfg) else "raw"
-    return head + f'<AppendedData encoding="{encn}">\n_'.encode() + appendix + b"\n</AppendedData>\n</VTKFile>\n"
+    a1, a2, a3, ws = cfg.get("hdr") or HDR_DEFAULT
+    return (head + f'<AppendedData{a1}encoding{a2}"{encn}"{a3}>{ws}_'.encode() + appendix +
+            b"\n</AppendedData>\n</VTKFile>\n")
 
 
 # ------------------------------------------------------------------ observables
@@ -336,6 +437,8 @@ def obs_impl(path: str) -> dict:
             fields = read_field_data(path)
             dom = fields.domain
             out = {"points": arr_obs(dom.points), "cells": {}, "pf": {}, "cf": {}}
+            pts64 = np.asarray(dom.points).astype("<f8")
+            out["points64"] = {"shape": [int(v) for v in pts64.shape], "le": pts64.tobytes().hex()}
             for ct in dom.cell_types:
                 conn = np.asarray(dom.connectivity(ct))
                 out["cells"][ct.name] = [[int(i) for i in row] for row in conn]
@@ -366,6 +469,36 @@ def obs_logical(ds, arrays: dict, layout, cds) -> dict:
         for tn, rows in cd:
             out["cf"][f["name"] + "@" + tn] = logical_arr(b"".join(rows), f["type"], len(rows), f["ncomp"])
     return out
+
+
+def obs_logical_structured(ds, arrays: dict) -> dict:
+    """structured files: point and cell fields (ONE cell type, all cells, file order); the points as float64 values
+    for .vts (explicit coordinates) and .vtr (tensor product of the ordinates, x fastest); .vti geometry consists of
+    attributes only and is not part of this property"""
+    out = {"points": None, "cells": {}, "pf": {}, "cf": {}}
+    if ds["kind"] == "vts":
+        p = np.frombuffer(arrays["Points/Coordinates"], dtype=np_dtype(ds["ptype"])).astype("<f8").reshape(ds["npts"], 3)
+        out["points"] = {"shape": [ds["npts"], 3], "le": p.tobytes().hex()}
+    elif ds["kind"] == "vtr":
+        xs, ys, zs = (np.frombuffer(arrays["Coordinates/" + nm], dtype=np_dtype(ds["ptype"])).astype("<f8") for nm in "xyz")
+        p = np.array([[x, y, z] for z in zs for y in ys for x in xs], dtype="<f8").reshape(ds["npts"], 3)
+        out["points"] = {"shape": [ds["npts"], 3], "le": p.tobytes().hex()}
+    for f in ds["pf"]:
+        out["pf"][f["name"]] = logical_arr(arrays["PointData/" + f["name"]], f["type"], ds["npts"], f["ncomp"])
+    for f in ds["cf"]:
+        out["cf"][f["name"] + "@*"] = logical_arr(arrays["CellData/" + f["name"]], f["type"], ds["ncells"], f["ncomp"])
+    return out
+
+
+def structured_view(ds, impl: dict) -> dict:
+    """the implementation's observables reduced to what `obs_logical_structured` speaks about"""
+    if "error" in impl:
+        return impl
+    cf = {}
+    for k, v in impl["cf"].items():
+        name, ct = k.rsplit("@", 1)
+        cf[name + "@*" if len(impl["cells"]) == 1 else k] = v
+    return {"points": impl.get("points64") if ds["kind"] in ("vts", "vtr") else None, "cells": {}, "pf": impl["pf"], "cf": cf}
 
 
 def diff_obs(a: dict, b: dict) -> list[str]:
@@ -410,6 +543,8 @@ class Batch:
         for i, ds in enumerate(dss):
             if ds["kind"] == "vtu":
                 lines.append(vtuw_line(ds)); where.append(i)
+            elif ds["kind"] == "vtp":
+                lines.append(vtpw_line(ds)); where.append(i)
         reps = self.ctx.lean(lines) if lines else []
         res = [None] * len(dss)
         for i, r in zip(where, reps):
@@ -425,13 +560,14 @@ class Batch:
                     {"sec": "Cells", "name": "types", "type": ds["ttype"], "ncomp": 1, "le": pack_ints(types, ds["ttype"])}]
             return arrs
         arrs = []
-        for s, _, _ in VTP_SECTIONS:
-            rows = ds["sections"].get(s)
-            if rows:
-                flat = [i for r in rows for i in r]
-                offs = list(itertools.accumulate(len(r) for r in rows))
-                arrs.append({"sec": s, "name": "connectivity", "type": ds["ctype"], "ncomp": 1, "le": pack_ints(flat, ds["ctype"])})
-                arrs.append({"sec": s, "name": "offsets", "type": ds["otype"], "ncomp": 1, "le": pack_ints(offs, ds["otype"])})
+        if ds["kind"] == "vtp":
+            # the flat arrays and the NumberOf… attributes come from the spec writer (Spec.vtpArrays)
+            spec_arrs = parse_vtp_arrs(lay["arrs"])
+            for s, _, _ in VTP_SECTIONS:
+                n, flat, offs = spec_arrs.get(s, (0, [], []))
+                if n:
+                    arrs.append({"sec": s, "name": "connectivity", "type": ds["ctype"], "ncomp": 1, "le": pack_ints(flat, ds["ctype"])})
+                    arrs.append({"sec": s, "name": "offsets", "type": ds["otype"], "ncomp": 1, "le": pack_ints(offs, ds["otype"])})
         return arrs
 
     def run(self, cases, tags_of=None, on_result=None):
@@ -478,7 +614,7 @@ class Batch:
             for ai in groups["ascii"]:
                 a = arrs[ai]
                 k, sz = VTK[a["type"]]
-                lines.append(f"c05ascw {1 if k == 'i' else 0} {sz} {hx(a['le'])}")
+                lines.append(f"c05ascw {cfg['bo']} {1 if k == 'i' else 0} {sz} {hx(a['le'])}")
                 plan.append((ci, ("ascii", ai)))
             per_case.append(info)
         reps = ctx.lean(lines)
@@ -515,7 +651,10 @@ class Batch:
                     offsets[ai] = len(appendix)
                     appendix += info["enc"][ai]
                     xmls.append(data_array_xml(a, st, "", offsets[ai]))
-            head = wrap_file(ds, cfg, arrs, xmls)
+            counts = None
+            if ds["kind"] == "vtp":
+                counts = {sec: n for sec, (n, _, _) in parse_vtp_arrs(lays[ds_index[id(ds)]]["arrs"]).items()}
+            head = wrap_file(ds, cfg, arrs, xmls, counts)
             content = finish_file(head, cfg, bytes(appendix) if info["groups"]["appended"] else None)
             self.n += 1
             path = os.path.join(self.tmp, f"c{self.n}.{ds['kind']}")
@@ -524,7 +663,7 @@ class Batch:
             info["path"] = path
             info["appendix"] = bytes(appendix)
             if cfg["fmt"] == "appraw" and info["groups"]["appended"] and len(self.raw_files) < self.raw_cap:
-                self.raw_files.append((cfg_key(cfg), content, bytes(appendix)))
+                self.raw_files.append((cfg_key(cfg), content, bytes(appendix), cfg.get("hdr") or HDR_DEFAULT))
             # model reader lines
             for st in ("inline", "appended"):
                 g = info["groups"][st]
@@ -572,18 +711,13 @@ class Batch:
             if not ds["cf"]:
                 cds = []
             return layout, cds
-        layout, ranges, start = [], [], 0
-        for s, tn, _ in VTP_SECTIONS:
-            rows = ds["sections"].get(s)
-            if rows:
-                layout.append((tn, rows, list(range(start, start + len(rows)))))
-                ranges.append((tn, start, start + len(rows)))
-                start += len(rows)
-        cds = []
-        for f in ds["cf"]:
-            rows = rows_of(unhx(f["le"]), start)
-            cds.append([(tn, rows[a:b]) for tn, a, b in ranges])
-        return layout, cds
+        if ds["kind"] == "vtp":
+            # Spec.vtpContent / Spec.vtpCellDataContent
+            layout = [(VTP_ID_NAME[t], rows, idxs) for t, rows, idxs in parse_layout(lay["spec"])]
+            cds = [] if lay["cdspec"] == "-" or not ds["cf"] else \
+                [[(VTP_ID_NAME[t], rows) for t, rows in parse_cd(s)] for s in lay["cdspec"].split(",")]
+            return layout, cds
+        return [], []
 
     def compare(self, ds, cfg, info, lay, tags):
         ctx = self.ctx
@@ -611,23 +745,29 @@ class Batch:
                 model_ok = False
                 ctx.inconsistent({"cfg": cfg, "array": n, "len": len(a["le"])}, mv[:80], hx(a["le"])[:80])
         layout, cds = self.logical(ds, lay)
-        if ds["kind"] == "vtu":
+        if ds["kind"] in ("vtu", "vtp"):
             if lay["model"] != lay["spec"] or lay["cdmodel"] != lay["cdspec"]:
                 model_ok = False
-                ctx.inconsistent({"cells": ds["cells"]}, lay["model"], lay["spec"])
-        expected = obs_logical(ds, logical_bytes, layout, cds)
+                ctx.inconsistent({"cells": ds.get("cells", ds.get("sections"))}, lay["model"], lay["spec"])
         impl = obs_impl(info["path"])
+        if ds["kind"] in STRUCTURED:
+            expected = obs_logical_structured(ds, logical_bytes)
+            impl = structured_view(ds, impl)
+        else:
+            expected = obs_logical(ds, logical_bytes, layout, cds)
+            impl.pop("points64", None)
         d = diff_obs(impl, expected)
-        nontrivial = len(arrs[0]["le"]) > 0 or ds["npts"] > 0
-        ctx.case(key, nontrivial=nontrivial, tags=["file-" + ds["kind"], "cfg-" + cfg_key(cfg).replace("/mixed", "")] + tags,
+        nontrivial = ds["npts"] > 0 or bool(arrs and len(arrs[0]["le"]) > 0)
+        ctx.case(key, nontrivial=nontrivial, tags=["file-" + ds["kind"], "cfg-" + re.sub(r"/(mixed|hdr\d)", "", cfg_key(cfg))] +
+                 (["appended-header-style-%d" % HDR_STYLES.index(cfg["hdr"])] if cfg.get("hdr") in HDR_STYLES else []) + tags,
                  sample={"cfg": cfg, "kind": ds["kind"], "npts": ds["npts"], "ncells": ncells_of(ds),
                          "arrays": len(arrs), "impl_error": impl.get("error"), "diff": d,
                          "model_ok": model_ok})
         if d:
-            cls = raw_tag_class(cfg, info)
+            cls = raw_tag_class(cfg, info) or appws_class(cfg, info)
             ctx.violation(case, brief(impl, d), brief(expected, d), cls=cls,
                           what=f"read_field_data differs from the logical content of the file in {d[:6]} (cfg {cfg_key(cfg)})"
-                               + (f" [class {cls}: raw appendix contains the bytes </AppendedData> or <AppendedData]" if cls else ""))
+                               + (f" [class {cls}: {CLASS_TEXT[cls]}]" if cls else ""))
             if model_ok and cls is None:
                 ctx.mismatch(case, brief(impl, d), brief(expected, d), what="implementation vs model reader")
         return {"ok": not d, "diff": d, "impl": impl, "expected": expected}
@@ -636,6 +776,16 @@ class Batch:
 # ------------------------------------------------------------------ finding classes
 
 RAW_TAG_NEEDLES = (b"</AppendedData>", b"<AppendedData")
+CLASS_TEXT = {"C05-RAWTAG": "raw appendix contains the bytes </AppendedData> or <AppendedData",
+              "C05-APPWS": "base64 appendix with a character other than blank / line break between > and _"}
+
+
+def appws_class(cfg, info):
+    """class predicate of observation C05-APPWS: XML-parsable file (base64 appendix) with a character other than
+    blank / line break between `>` and `_`"""
+    if cfg["fmt"] == "app64" and info["groups"]["appended"] and cfg.get("hdr") and cfg["hdr"][3].strip(" \n"):
+        return "C05-APPWS"
+    return None
 
 
 def raw_tag_class(cfg, info):
@@ -677,8 +827,9 @@ def boundary_tags(lengths, cfg):
 
 
 def array_lengths(ds):
-    ls = [len(unhx(f["le"])) for f in ds["pf"] + ds["cf"]] + [len(unhx(ds["points"]))]
-    return ls
+    ls = [len(unhx(f["le"])) for f in ds["pf"] + ds["cf"]]
+    ls += [len(unhx(ds["points"]))] if "points" in ds else [len(unhx(c)) for c in ds.get("coords", [])]
+    return ls or [0]
 
 
 def matrix(Bs):
@@ -703,6 +854,8 @@ def random_cfg(rng, narr: int, lengths):
     B = max(1, rng.choice([L - 1, L, L + 1, L // 2, (L - 1) // 2, rng.randint(1, 64), rng.randint(1, 9)]))
     cfg = {"fmt": fmt, "comp": comp, "B": B if comp else 0, "hs": rng.choice([4, 8]), "bo": rng.choice(["le", "be"]),
            "joint": rng.random() < 0.5 if (fmt in ("inline", "app64") and not comp) else True}
+    if fmt in ("app64", "appraw") and rng.random() < 0.6:
+        cfg["hdr"] = rng.choice(hdr_styles_for(fmt))
     if rng.random() < 0.25 and fmt != "ascii":
         app = "appended"
         cfg["fmts"] = [rng.choice(["ascii", "inline", app]) for _ in range(narr)]
@@ -717,6 +870,13 @@ def random_ds(rng, kind):
     it = rng.choice(["Int32", "Int64", "UInt32", "UInt64", "Int16", "UInt8"])
     ot = rng.choice(["Int32", "Int64", "UInt32", "UInt64"])
     pt = rng.choice(["Float32", "Float64"])
+    if kind in STRUCTURED:
+        cells = rng.choice([(2, 1, 0), (3, 0, 0), (1, 1, 1), (2, 2, 1), (0, 2, 0), (1, 0, 2), (0, 0, 0), (4, 1, 0)])
+        if kind == "vts" and cells == (0, 0, 0):
+            # a zero-dimensional .vts (one point) raises IndexError in StructuredMesh for EVERY encoding (ascii
+            # included): not an encoding matter, outside this property (see NOTES_C05.md, observation O1)
+            cells = (1, 0, 0)
+        return gen_structured(rng, kind, cells, plan_p, plan_c, ptype=pt)
     if kind == "vtu":
         m = rng.choice([0, 0, 1, 2, 3, 4, 5, 8])
         pool = rng.sample(list(CELL), rng.randint(1, 3))
@@ -833,7 +993,7 @@ def model_read_elements(ctx, root, appendix, app_b64, elements):
                 ints = np.frombuffer(vals.tobytes(), dtype=f"<u{sz}").tolist()
             else:
                 ints = [int(t) for t in toks]
-            lines.append(f"c05ascr {sz} {len(ints)} " + " ".join(str(v) for v in ints)); where.append((i, "asc"))
+            lines.append(f"c05ascr {bo} {sz} {len(ints)} " + " ".join(str(v) for v in ints)); where.append((i, "asc"))
         else:
             b64 = True if fmt == "binary" else app_b64
             data = (e.text or "").strip().encode("ascii") if fmt == "binary" else appendix
@@ -961,26 +1121,34 @@ def check_shipped(ctx):
             pts["shape"] = [pts["shape"][0] * (pts["shape"][1] if len(pts["shape"]) > 1 else 1) // 3, 3]
             if impl["points"] != pts:
                 diffs.append("points")
-            j, sizes, secnames = 1, [], []
+            # the whole of VTPReader._make_mesh through Fc.vtpLayout: count attributes + per-section arrays
+            j, toks, total = 1, ["c05vtpl", str(len(VTP_SECTIONS))], 0
             for s, tn, attr in VTP_SECTIONS:
-                if int(piece.attrib.get(attr, "0")) > 0:
+                cnt = int(piece.attrib.get(attr, "0"))
+                conn, offs = [], []
+                if cnt > 0:
                     conn, offs = ints(mesh_elems[j], mm[j]), ints(mesh_elems[j + 1], mm[j + 1])
                     j += 2
-                    r = ctx.lean([f"c05vtp {len(conn)} {' '.join(map(str, conn))} {len(offs)} {' '.join(map(str, offs))}"
-                                  .replace("  ", " ")])[0]
-                    rows = [] if r["model"] == "-" else [parse_nats(x) for x in r["model"].split(";")]
-                    if impl["cells"].get(tn) != rows:
-                        diffs.append("cells:" + tn)
-                    sizes.append(len(offs)); secnames.append(tn)
-            r = ctx.lean([f"c05vtpidx {len(sizes)} {' '.join(map(str, sizes))}".strip()])[0]
-            ranges = [] if r["model"] == "-" else [parse_nats(x) for x in r["model"].split(";")]
+                total += cnt
+                toks += [str(VTP_TYPE_ID[s]), str(cnt), str(len(conn))] + [str(i) for i in conn] + \
+                        [str(len(offs))] + [str(i) for i in offs]
+            toks.append(str(len(cd)))
             for e, m in zip(cd, cdm):
-                rows = rows_of(m, sum(sizes))
-                for tn, idxs in zip(secnames, ranges):
-                    want = logical_arr(b"".join(rows[i] for i in idxs), e.attrib["type"], len(idxs),
-                                       int(e.attrib.get("NumberOfComponents", 1)))
-                    if impl["cf"].get(e.attrib["Name"] + "@" + tn) != want:
-                        diffs.append("cf:" + e.attrib["Name"] + "@" + tn)
+                rows = rows_of(m, total)
+                toks += [str(len(rows))] + [hx(r_) for r_ in rows]
+            r = ctx.lean([" ".join(toks)])[0]
+            lay = {VTP_ID_NAME[t]: rows for t, rows, _ in parse_layout(r.get("model", "-"))}
+            if lay != impl["cells"]:
+                diffs.append("cells")
+            cds = [] if r.get("cd", "-") == "-" else r["cd"].split(",")
+            for e, s_ in zip(cd, cds):
+                if s_ == "E":
+                    diffs.append("cf-model-error:" + e.attrib["Name"])
+                    continue
+                for t, rows in parse_cd(s_):
+                    want = logical_arr(b"".join(rows), e.attrib["type"], len(rows), int(e.attrib.get("NumberOfComponents", 1)))
+                    if impl["cf"].get(e.attrib["Name"] + "@" + VTP_ID_NAME[t]) != want:
+                        diffs.append("cf:" + e.attrib["Name"] + "@" + VTP_ID_NAME[t])
         else:
             # structured: one cell type, identity index map
             for e, m in zip(cd, cdm):
@@ -994,8 +1162,46 @@ def check_shipped(ctx):
 
 # ------------------------------------------------------------------ fallback parser: implementation vs model
 
-def impl_fallback(content: bytes):
+_PROBE = {}
+
+
+def _probe_class():
+    """a minimal concrete VTKXMLReader: only its constructor (XML parse, fallback branch) is used"""
+    if "cls" not in _PROBE:
+        from fieldcompare.io.vtk._xml_reader import VTKXMLReader
+
+        class Probe(VTKXMLReader):
+            def _make_mesh(self):
+                raise NotImplementedError
+
+            def _get_field_data_path(self):
+                return "UnstructuredGrid/Piece"
+        _PROBE["cls"] = Probe
+    return _PROBE["cls"]
+
+
+def impl_fallback(content: bytes, tmpdir=None):
+    """what the fallback branch of VTKXMLReader.__init__ extracts.  Preferably observed on the real constructor
+    (file that ElementTree rejects and whose head is XML); otherwise the two helper functions are called the way
+    the constructor calls them."""
     from fieldcompare.io.vtk._xml_reader import _find_appendix_positions, _determine_encoding
+    if tmpdir is not None:
+        try:
+            ElementTree.fromstring(content)
+            rejected = False
+        except ElementTree.ParseError:
+            rejected = True
+        if rejected:
+            path = os.path.join(tmpdir, "probe.vtu")
+            with open(path, "wb") as fh:
+                fh.write(content)
+            try:
+                rd = _probe_class()(path)
+                app = rd._appendix
+                impl_fallback.via_constructor += 1
+                return hx(app._content), hx(str(app._encoding).encode("ascii", "replace"))
+            except Exception:  # noqa: BLE001  head is not XML / the helpers raise: observe the helpers directly
+                pass
     try:
         b, e = _find_appendix_positions(content)
         return hx(content[b:e]), hx(_determine_encoding(content[b - 100:]).encode("ascii", "replace"))
@@ -1003,11 +1209,14 @@ def impl_fallback(content: bytes):
         return "E", "-"
 
 
-def check_fallback(ctx, files):
+impl_fallback.via_constructor = 0
+
+
+def check_fallback(ctx, files, tmpdir=None):
     """files = [(tag, content, appendix written by the harness | None)]"""
     reps = ctx.lean([f"c05fallback {hx(c)}" for _, c, _ in files])
     for (tag, content, app), r in zip(files, reps):
-        impl = impl_fallback(content)
+        impl = impl_fallback(content, tmpdir)
         model = (r.get("model", "?"), r.get("enc", "?"))
         # the slice includes the line break the harness puts in front of the closing tag
         intact = impl[1] == hx(b"raw") and (app is None or impl[0] == hx(app + b"\n"))
@@ -1016,6 +1225,120 @@ def check_fallback(ctx, files):
         if impl != model:
             ctx.mismatch({"op": "fallback", "file": tag, "content": content.hex()}, impl, model,
                          what="_find_appendix_positions/_determine_encoding vs Fc.fallbackAppendix")
+
+
+RAW_TAIL = b"\n</AppendedData>\n</VTKFile>\n"
+
+
+def rawfile_line(parts) -> str:
+    return "c05rawfile " + " ".join(hx(parts[k]) for k in ("pre", "a1", "a2", "enc", "a3", "ws", "appendix", "post"))
+
+
+def rawfile_content(parts) -> bytes:
+    """harness-side copy of Spec.RawFile.content (compared with the driver's on every file)"""
+    return (parts["pre"] + b"<AppendedData" + parts["a1"] + b"encoding" + parts["a2"] + b'"' + parts["enc"] + b'"' +
+            parts["a3"] + b">" + parts["ws"] + b"_" + parts["appendix"] + b"</AppendedData>" + parts["post"])
+
+
+def decompose_generated(content: bytes, appendix: bytes, hdr):
+    """the pieces of a raw-appended file written by `finish_file` (Spec.RawFile)"""
+    a1, a2, a3, ws = (x.encode() for x in hdr)
+    mid = b"<AppendedData" + a1 + b"encoding" + a2 + b'"raw"' + a3 + b">" + ws + b"_"
+    n = len(content) - len(mid) - len(appendix) - len(RAW_TAIL)
+    parts = {"pre": content[:n], "a1": a1, "a2": a2, "enc": b"raw", "a3": a3, "ws": ws,
+             "appendix": appendix + b"\n", "post": b"\n</VTKFile>\n"}
+    return parts if n >= 0 and rawfile_content(parts) == content else None
+
+
+def synthetic_rawfiles(rng, count: int):
+    """raw-file decompositions in varying legal and illegal styles (only the fallback parser sees them)"""
+    out = []
+    filler = b'<?xml version="1.0"?>\n<VTKFile type="UnstructuredGrid" version="1.0" byte_order="LittleEndian">\n' \
+             b'<UnstructuredGrid><Piece NumberOfPoints="4" NumberOfCells="1">\n<PointData>\n' \
+             b'<DataArray type="Float64" Name="p_1" format="appended" offset="0"/>\n</PointData>\n</Piece></UnstructuredGrid>\n'
+    xml_head = b'<?xml version="1.0"?>\n<VTKFile type="UnstructuredGrid">\n'
+    for _ in range(count):
+        if rng.random() < 0.5:
+            # a well-formed head (so that the real constructor gets through), total length around the 100-byte mark
+            pad = rng.choice([0, 1, 5, 10, 11, 12, 13, 14, 30, 40, 41, 42, 43, 44, 80, 200])
+            pre = xml_head + b"<!--" + b"x" * pad + b"-->\n<UnstructuredGrid></UnstructuredGrid>\n"
+        else:
+            pre = filler[:rng.choice([0, 30, 60, 68, 69, 70, 99, 100, 101, len(filler)])]
+        if rng.random() < 0.1:
+            pre += rng.choice([b"<!-- <AppendedData -->", b"<!-- </AppendedData> -->", b"<AppendedDat", b"</AppendedData"])
+        parts = {"pre": pre,
+                 "a1": rng.choice([b" ", b" ", b"\n", b"  ", b' foo="bar" ', b' a_b="_" ', b' encodin="x" ', b' a="encoding" ']),
+                 "a2": rng.choice([b"=", b"=", b" = ", b"= "]),
+                 "enc": rng.choice([b"raw", b"raw", b"base64", b"binary", b""]),
+                 "a3": rng.choice([b"", b"", b" ", b' x="1"', b" " * 70]),
+                 "ws": rng.choice([b"", b"\n", b"\n", b"\n  ", b" \t", b"<", b"_"]),
+                 "post": rng.choice([b"\n</VTKFile>\n", b"\n</VTKFile>\n", b"</VTKFile>", b"", b"\n<AppendedData/>\n</VTKFile>"])}
+        r = rng.random()
+        body = bytes(rng.getrandbits(8) for _ in range(rng.randint(0, 24)))
+        if r < 0.12:
+            body += rng.choice(RAW_TAG_NEEDLES) + bytes(rng.getrandbits(8) for _ in range(3))
+        elif r < 0.4:
+            body += rng.choice([b"_", b"<", b">", b'"', b"encoding", b"</AppendedData", b"<AppendedDat", b"<<AppendedDat",
+                                b"</Appended</AppendedData"]) + bytes(rng.getrandbits(8) for _ in range(3))
+        parts["appendix"] = body
+        out.append(parts)
+    return out
+
+
+def check_rawfiles(ctx, items, tmpdir=None):
+    """items = [(tag, parts)]: the file-level theorem C05_fallback_appendix at run time.
+    Inside HeadOk ∧ AppendixOk: model = spec (theorem; `inconsistent` otherwise) and implementation = spec;
+    everywhere: implementation = model (correspondence)."""
+    reps = ctx.lean([rawfile_line(p_) for _, p_ in items])
+    for (tag, parts), r in zip(items, reps):
+        content = rawfile_content(parts)
+        if r.get("content") != hx(content):
+            ctx.inconsistent({"op": "rawfile", "file": tag}, r.get("content", "?")[:80], hx(content)[:80])
+            continue
+        hyp = r.get("head") == "1" and r.get("app") == "1"
+        model = (r.get("model", "?"), r.get("enc", "?"))
+        spec = (r.get("spec", "?"), r.get("specenc", "?"))
+        impl = impl_fallback(content, tmpdir)
+        has_needle = any(n in parts["appendix"] for n in RAW_TAG_NEEDLES)
+        ctx.case(("rawfile", content), nontrivial=True,
+                 tags=["rawfile-" + tag.split(":")[0], "rawfile-hyp-" + ("in" if hyp else "out"),
+                       "rawfile-head" + r.get("head", "?") + "-app" + r.get("app", "?")])
+        if (r.get("app") == "0") != has_needle:
+            ctx.inconsistent({"op": "rawfile-class", "file": tag, "appendix": parts["appendix"].hex()},
+                             f"AppendixOk={r.get('app')}", f"needle in appendix={has_needle}")
+        if hyp and model != spec:
+            ctx.inconsistent({"op": "rawfile", "file": tag, "content": content.hex()}, model, spec)
+        if impl != model:
+            ctx.mismatch({"op": "rawfile", "file": tag, "content": content.hex()}, impl, model,
+                         what="_find_appendix_positions/_determine_encoding vs Fc.fallbackAppendix")
+        elif hyp and impl != spec:
+            ctx.violation({"op": "rawfile", "file": tag, "content": content.hex()}, impl, spec, cls=None,
+                          what="fallback parser does not return the appendix of a well-formed raw file")
+
+
+def check_numpy_text_parser(ctx):
+    """assumption behind Fc.asciiItemsWith: np.fromstring(text, dtype, sep=' ') stores native bytes whatever
+    byte order the dtype requests (so a byte-order qualified dtype reads ascii items swapped)"""
+    rng = ctx.rng
+    lines, want = [], []
+    for tname, (k, sz) in VTK.items():
+        if k == "f":
+            continue
+        for bo in ("le", "be"):
+            for uses in (0, 1):
+                bits = 8 * sz
+                vals = [rng.getrandbits(bits) - ((1 << (bits - 1)) if k == "i" else 0) for _ in range(4)] + [0, 1]
+                dt = np_dtype(tname, {"le": "<", "be": ">"}[bo]) if uses else np_dtype(tname, "=")
+                with warnings.catch_warnings():
+                    warnings.simplefilter("ignore")
+                    v = np.fromstring(" ".join(str(x) for x in vals), dtype=dt, sep=" ")
+                want.append(hx(v.astype(v.dtype.newbyteorder("<")).tobytes()))
+                lines.append(f"c05ascx {uses} {bo} {sz} {len(vals)} " + " ".join(str(x) for x in vals))
+    for ln, w, r in zip(lines, want, ctx.lean(lines)):
+        ctx.case(("numpy-text", ln), nontrivial=True, tags=["numpy-text-parser"])
+        if r.get("model") != w:
+            ctx.mismatch({"op": "numpy-text-parser", "line": ln}, w, r.get("model"),
+                         what="np.fromstring with a (non-)native dtype vs Fc.asciiItemsWith")
 
 
 # ------------------------------------------------------------------ adversarial: raw-appended fallback parser
@@ -1113,16 +1436,29 @@ def run(ctx):
         lengths = array_lengths(dsp)
         mp = matrix(block_sizes_for(lengths))
         sample = [c for c in mp if not c["comp"]] + rng.sample([c for c in mp if c["comp"]], ctx.scale(40, 180))
+        # other legal spellings of the <AppendedData …> tag (blanks, further attributes, up to 96 bytes long)
+        sample += [dict(c, hdr=h) for c in mp
+                   if c["fmt"] in ("appraw", "app64") and not c["comp"] and c["hs"] == 4 and c["bo"] == "le" and c["joint"]
+                   for h in hdr_styles_for(c["fmt"])]
         for i in range(0, len(sample), 40):
             batch.run([(dsp, c) for c in sample[i:i + 40]],
                       tags_of=lambda d, c, L=lengths: ["matrix-vtp"] + boundary_tags(L, c))
+        # ---- structured files (.vti / .vtr / .vts): data arrays through the same matrix
+        for kind, cells in (("vti", (2, 1, 0)), ("vtr", (2, 1, 1)), ("vts", (1, 2, 0))):
+            dss = gen_structured(rng, kind, cells, cyclic_plan(1), cyclic_plan(0),
+                                 ptype="Float32" if kind == "vtr" else "Float64")
+            lengths = array_lengths(dss)
+            ms = matrix(block_sizes_for(lengths))
+            sample = [c for c in ms if not c["comp"]] + rng.sample([c for c in ms if c["comp"]], ctx.scale(14, 120))
+            for i in range(0, len(sample), 40):
+                batch.run([(dss, c) for c in sample[i:i + 40]],
+                          tags_of=lambda d, c, L=lengths: ["matrix-structured"] + boundary_tags(L, c))
         # ---- random data sets x random configurations (mixed per-array formats, empty cell sets, odd block sizes)
         n_rand = ctx.scale(200, 40000)
         cases = []
         for _ in range(n_rand):
-            ds = random_ds(rng, "vtu" if rng.random() < 0.7 else "vtp")
-            narr = len(ds["pf"]) + len(ds["cf"]) + 1 + (3 if ds["kind"] == "vtu" else 2 * len(ds["sections"]))
-            cases.append((ds, random_cfg(rng, narr, array_lengths(ds))))
+            ds = random_ds(rng, rng.choice(["vtu"] * 11 + ["vtp"] * 4 + ["vti", "vti", "vtr", "vts", "vts"]))
+            cases.append((ds, random_cfg(rng, n_arrays(ds), array_lengths(ds))))
         for i in range(0, len(cases), 100):
             batch.run(cases[i:i + 100], tags_of=lambda d, c: ["random"] + boundary_tags(array_lengths(d), c) +
                       (["no-cells"] if ncells_of(d) == 0 else []) + (["mixed-formats"] if c.get("fmts") else []))
@@ -1130,13 +1466,27 @@ def run(ctx):
         adv = adversarial_cases(rng)
         batch.run([(ds, cfg) for ds, cfg, _ in adv], tags_of=lambda d, c: ["adversarial-raw"])
         # ---- the raw-appended fallback parser on the files generated above and on the shipped raw files
-        files = list(batch.raw_files)
+        files = [(t_, c_, a_) for t_, c_, a_, _ in batch.raw_files]
         d = os.path.join(core.REPO, "test", "vtkfiles")
         if os.path.isdir(d):
             for name in sorted(os.listdir(d)):
                 if "raw" in name and os.path.splitext(name)[1] in (".vtu", ".vtp", ".vts"):
                     files.append(("shipped:" + name, open(os.path.join(d, name), "rb").read(), None))
-        check_fallback(ctx, files)
+        check_fallback(ctx, files, tmp)
+        # ---- file-level theorem C05_fallback_appendix: generated raw files decomposed into Spec.RawFile pieces,
+        #      plus synthetic decompositions in other header styles / with hostile bytes
+        items = []
+        for tag, content, app, hdr in batch.raw_files:
+            parts = decompose_generated(content, app, hdr)
+            if parts is None:
+                ctx.inconsistent({"op": "rawfile-decompose", "file": tag}, "finish_file layout", "Spec.RawFile.content")
+            else:
+                items.append(("generated:" + tag, parts))
+        items += [("synthetic:%d" % i, p_) for i, p_ in enumerate(synthetic_rawfiles(rng, ctx.scale(300, 6000)))]
+        check_rawfiles(ctx, items, tmp)
+        ctx.notes.append(f"fallback parser observed on the real VTKXMLReader constructor for "
+                         f"{impl_fallback.via_constructor} file contents (helpers called directly for the rest)")
+        check_numpy_text_parser(ctx)
         # ---- shipped files
         check_shipped(ctx)
         # ---- shrink what was found
